@@ -302,3 +302,31 @@ V("c09-preserving-host-array-write", "C09", "silent",
   ("piquasso/_simulators/passive/simulation_steps.py", "    embedded = np.identity(len(state.interferometer), dtype=state._config.complex_dtype)\n", "    embedded = np.identity(len(state.interferometer), dtype=state._config.complex_dtype)\n    scratch = fallback_np.zeros(3)\n    scratch[0] = 1.0\n"))
 V("c09-preserving-new-connector-method", "C09", "silent",
   (JAXC, "    def svd(self, *args, **kwargs):", "    def eigh(self, *args, **kwargs):\n        return self.np.linalg.eigh(*args, **kwargs)\n\n    def svd(self, *args, **kwargs):"))
+
+# ------------------------------------------------------------------------------------------- C07
+V("c07-beamsplitter-sign", "C07", {"rule": "C07a", "contains": "Beamsplitter"},
+  (GATES, "                [t, -np.conj(r)],\n                [r, t],", "                [t, np.conj(r)],\n                [r, t],"))
+V("c07-squeezing-cosh-sinh-swapped", "C07", {"rule": "C07a", "contains": "Squeezing"},
+  (GATES, "        return np.array([[np.cosh(r)]], dtype=config.complex_dtype)", "        return np.array([[np.sinh(r)]], dtype=config.complex_dtype)"))
+V("c07-quadratic-phase-active", "C07", {"rule": "C07a", "contains": "QuadraticPhase"},
+  (GATES, "        return connector.np.array([[s / 2 * 1j]], dtype=config.complex_dtype)", "        return connector.np.array([[s * 1j]], dtype=config.complex_dtype)"))
+V("c07-controlledz-asymmetric", "C07", {"rule": "C07a", "contains": "ControlledZ"},
+  (GATES, "                [1, 1j * (s / 2)],\n                [1j * (s / 2), 1],", "                [1, 1j * (s / 2)],\n                [-1j * (s / 2), 1],"))
+V("c07-fourier-minus-i", "C07", {"rule": "C07b", "contains": "Fourier"},
+  (GATES, "        return connector.np.array([[1j]], dtype=config.complex_dtype)", "        return connector.np.array([[-1j]], dtype=config.complex_dtype)"))
+V("c07-bs5050-transposed", "C07", {"rule": "C07b", "contains": "Beamsplitter5050"},
+  (GATES, "                [1, -1],\n                [1, 1],", "                [1, 1],\n                [-1, 1],"))
+V("c07-machzehnder-ext-int-swapped", "C07", {"rule": "C07b", "contains": "MachZehnder"},
+  (GATES, "        int_phase, ext_phase = np.exp(1j * np.array([int_, ext]))", "        ext_phase, int_phase = np.exp(1j * np.array([int_, ext]))"))
+V("c07-squeezing2-sign", "C07", {"rule": "C07b", "contains": "Squeezing2"},
+  (GATES, "                [0, np.sinh(r) * np.exp(1j * phi)],\n                [np.sinh(r) * np.exp(1j * phi), 0],", "                [0, -np.sinh(r) * np.exp(1j * phi)],\n                [-np.sinh(r) * np.exp(1j * phi), 0],"))
+V("c07-momentum-displacement-phase", "C07", {"rule": "C07b", "contains": "MomentumDisplacement"},
+  (GATES, "        return dict(r=self.params[\"p\"], phi=np.pi / 2)", "        return dict(r=self.params[\"p\"], phi=-np.pi / 2)"))
+V("c07-displacement-step-conj", "C07", {"rule": "C07c", "contains": "displacement"},
+  (GSS, "state._m[indices] + r * np.exp(1j * phi)", "state._m[indices] + r * np.exp(-1j * phi)"))
+V("c07-interferometer-unvalidated", "C07", {"rule": "C07a", "contains": "Interferometer"},
+  (GATES, "        if not is_square(matrix):\n            raise InvalidParameter(\n                \"The interferometer matrix should be a square matrix.\"\n            )\n", "        return\n"))
+V("c07-preserving-beamsplitter-rewritten", "C07", "silent",
+  (GATES, "        t = np.cos(theta)\n        r = np.exp(1j * phi) * np.sin(theta)\n", "        t = np.sin(theta + np.pi / 2)\n        r = np.sin(theta) * (np.cos(phi) + 1j * np.sin(phi))\n"))
+V("c07-preserving-squeezing-exp-form", "C07", "silent",
+  (GATES, "        return np.array([[np.cosh(r)]], dtype=config.complex_dtype)", "        return np.array([[(np.exp(r) + np.exp(-r)) / 2]], dtype=config.complex_dtype)"))
